@@ -625,6 +625,8 @@ def concrete_score(gene, profile, slots, c0, c1):
 
 
 def replay(o):
+    if o["kind"] == "none":
+        return True, "observed directly on the real wrapper"
     if o["kind"] == "wrapper":
         return replay_wrapper(o)
     import aldy.cn as cn
@@ -827,8 +829,24 @@ def run_wrapper(cfg):
                 g = z3.And([mc >= v + 1 for v in allv] + [z3.Or([mc < v + 2 for v in allv])])
                 s2, _ = eng.prove([], g)
                 ob(res, f"{tag}: max copy number = 1 + ceil(max region depth)", s2)
-                good = all(symx.tz(rr["region_cov"][r][0]) is not None
-                           for r in gene0.unique_regions)
+                # the structure model receives exactly the normalised depths of the
+                # copy-number regions: gene first, pseudogene second (0.0 without one)
+                rcov = rr["region_cov"]
+                g3 = [z3.BoolVal(set(rcov) == set(gene0.unique_regions))]
+                for r in gene0.unique_regions:
+                    if r in rcov:
+                        g3.append(symx.tz(rcov[r][0]) == symx.tz(rc[0, r]))
+                        g3.append(symx.tz(rcov[r][1]) == (symx.tz(rc[1, r])
+                                                          if len(gene0.regions) > 1
+                                                          else z3.RealVal(0)))
+                s4, _ = eng.prove([], z3.And(g3))
+                ob(res, f"{tag}: the structure model is handed exactly the normalised "
+                        "depths of the copy-number regions", s4)
+                if s4 == "sat":
+                    res["violations"].append({
+                        "what": "estimate_cn hands the structure model other depths than "
+                                "the normalised region depths", "key": "wrapper-depths",
+                        "replay": {"kind": "none"}})
                 if fus:
                     fsv = rr["fs"]
                     s3 = "holds"
